@@ -230,6 +230,37 @@ def run(ctx):
                           "%s rewrites the unit flags of its sub-expression (used = `%s`, bare = `%s`): a bare term inside a parenthesised group that also contains a unit construct is hidden from the mixed-unit check — `!degrees (deg(90) + 90)` is accepted" % (wname, render(comps[1])[:60], render(comps[2])[:60]),
                           config, ctx.where(g, b))
         ctx.floor("IDENTITY.flag-wrappers", nfl, 2, config)
+        # ---- SCALE: fraction digits beyond the cap are read and counted but do not enter the numerator; whatever the fraction is
+        # divided by must count exactly the digits that *did* enter it.  Either the function returns numerator / scale with both
+        # accumulators advanced in the same blocks, or — if it hands out a raw numerator — the count it hands out with it
+        # advances in the same blocks as the numerator.  (Dividing 18 accumulated digits by 10^(all digits) shrinks the
+        # fraction by the surplus: `0:0:30.5000000000000000000` becomes 30.05.)
+        fr = fx.fn(P + "read_frac_part_unders")
+        ctx.saw(fr)
+        loops = set().union(*[c for c in fr.sccs() if len(c) > 1]) if fr.sccs() else set()
+
+        def loop_writes(name):
+            return {b for b, i, s_ in fr.stmts() if s_["k"] == "assign" and not s_["p"]["pr"] and fr.local_name(s_["p"]["l"]) == name and b in loops}
+        oksc, why = False, "no result tuple found"
+        for b, i, adt, var, fl, ops, s_ in aggregates(fr):
+            if s_["p"]["l"] != 0 or var != "Ok":
+                continue
+            tup = fr.sym_operand(s_["rv"]["ops"][0])
+            if not (tup[0] == "aggr" and len(tup) > 4 and len(tup[4]) == 2):
+                continue
+            v, cnt = tup[4]
+            if v[0] == "bin" and v[1] == "Div" and v[2][0] == "local" and v[3][0] == "local" and len(v[2]) > 2 and len(v[3]) > 2:
+                wa, wb = loop_writes(v[2][2]), loop_writes(v[3][2])
+                oksc = bool(wa) and wa == wb
+                why = "numerator `%s` written in %s, scale `%s` in %s" % (v[2][2], sorted(wa), v[3][2], sorted(wb))
+            elif v[0] == "local" and len(v) > 2 and cnt[0] == "local" and len(cnt) > 2:
+                wa, wb = loop_writes(v[2]), loop_writes(cnt[2])
+                oksc = bool(wa) and wa == wb
+                why = "raw numerator `%s` written in %s, count `%s` in %s" % (v[2], sorted(wa), cnt[2], sorted(wb))
+            else:
+                why = "result `%s`" % render(v)[:60]
+        ctx.check(oksc, "IDENTITY", "C19:SCALE:fraction-scale-counts-accumulated-digits", "the fraction's scale advances exactly where its numerator does",
+                  "read_frac_part_unders hands out a fraction whose scale does not advance together with its numerator (%s): digits beyond the precision cap are counted in the divisor but not in the numerator" % why, config, ctx.where(fr))
         # ---- PAIR (mode): the sexagesimal interpretation switched for a unit call's argument is the caller's again afterwards:
         # every write of `self.sexagesimal_is_time` that follows the nested expression restores a value saved from the field
         # before it (a constant would be right only for non-nested calls).
